@@ -146,6 +146,10 @@ def run_case(ctx, k, rng):
         except Exception as e:
             ctx.exception("keep_inf=False drops", e)
         v = float(np.max(dgm[:, 1]) + abs(rng.normal()) + 0.5)
+        if rng.random() < 0.5:
+            # any value above the births of the infinite bars is a legitimate replacement - also one *below* finite deaths
+            infb = float(np.max(big[np.isinf(big[:, 1]), 0]))
+            v = infb + float(rng.uniform(0.05, 1.0)) * max(float(np.ptp(dgm)), 1e-3)
         try:
             Ek = float(call(ctx, big, keep_inf=True, val_inf=v)[0])
             repl = np.where(np.isinf(big), v, big)
